@@ -105,6 +105,15 @@ def gen_module(b, name, excl):
             m["procs"].append(p)
             m["decls"].append({"d": "interface", "form": "generic", "name": op, "modprocs": [fn], "bodies": [],
                                "doc": b.doc(), "access": None})
+    if "generic_bodies" not in excl and ch.bool(1, 3):
+        # a generic name for external routines: several explicit interface bodies in one generic block
+        bodies = []
+        for base in ({"base": "real", "kind": None}, {"base": "double precision", "kind": None}, {"base": "complex", "kind": None})[: ch.count(2, 3)]:
+            fn = b.fresh("xnrm")
+            bodies.append({"k": "function", "name": fn, "args": ["x"], "prefix": [], "rettype": dict(base),
+                           "decls": [_var("x", dict(base), intent="in")], "exec": [], "procs": [], "uses": [], "doc": b.doc()})
+        m["decls"].append({"d": "interface", "form": "generic", "name": b.fresh("nrm"), "modprocs": [], "bodies": bodies,
+                           "doc": b.doc(), "access": None})
     for _ in range(ch.count(0, 2)):
         m["decls"].append({"d": "enum", "items": [[b.fresh("en"), None], [b.fresh("en"), "5"]], "docs": {}})
     v = _var("shared_name")
@@ -236,8 +245,10 @@ def check(case) -> Result:
                     url = None
                 if url is None or isinstance(e, sf.FortranSourceFile):
                     continue
-                if isinstance(e, sf.FortranProcedure) and e.is_interface_procedure:
-                    continue        # documented through its interface object (same page by design)
+                if isinstance(e, sf.FortranProcedure) and isinstance(getattr(e, "parent", None), sf.FortranInterface) \
+                        and not getattr(e.parent, "generic", False):
+                    continue        # the one procedure of a non-generic interface block is documented through the
+                    #                 interface object (same page by design); bodies of a generic block are entities
                 by_url.setdefault(url, []).append(e)
                 tracers = TRACER.findall(" ".join(getattr(e, "doc_list", []) or []))
                 if tracers:
